@@ -298,17 +298,40 @@ class World(object):
         world = self
         self.log = []          # (thread ident, url, SOAPAction, message bytes, reply bytes)
 
+        class FakeResponse(object):
+            """What urllib's opener returns, as far as suds and http.cookiejar look."""
+
+            def __init__(self, data):
+                import http.client
+                self.data = data
+                self.headers = http.client.HTTPMessage()
+                self.code, self.msg = 200, "OK"
+
+            def read(self):
+                return self.data
+
+            def info(self):
+                return self.headers
+
+        class StubOpener(object):
+            """urlopener stand-in: no network, the reply is a pure function of the request."""
+
+            def open(self, u2request, timeout=None):
+                reply = serve(u2request.full_url, u2request.data)
+                world.log.append((threading.get_ident(), u2request.full_url,
+                                  u2request.get_header("Soapaction"), u2request.data, reply))
+                return FakeResponse(reply)
+
         class EchoTransport(suds.transport.https.HttpAuthenticated):
-            """No network: the reply is a pure function of the request."""
+            """The real HTTP transport of suds (send, cookies, credentials, its
+            own __deepcopy__) over a stub opener."""
+
+            def __init__(self, **kwargs):
+                suds.transport.https.HttpAuthenticated.__init__(self, **kwargs)
+                self.urlopener = StubOpener()
 
             def open(self, request):
                 raise Exception("C13 harness: no document may be fetched")
-
-            def send(self, request):
-                reply = serve(request.url, request.message)
-                world.log.append((threading.get_ident(), request.url,
-                                  request.headers.get("SOAPAction"), request.message, reply))
-                return suds.transport.Reply(200, {}, reply)
 
         self.EchoTransport = EchoTransport
 
@@ -1089,8 +1112,9 @@ def run(ck):
         "classes with equal name and bases); results are compared by value, not by class identity",
         "cold runs start from emptied memo caches (TypedContent.resolved_cache, Factory.cache), the state "
         "right after the WSDL was loaded; warm runs after one solo call of each kind",
-        "the transport is a harness class returning a reply computed from the request (no network); the "
-        "thread safety of urllib / http.client is outside the property",
+        "calls go through suds' own HttpAuthenticated.send (cookies, credentials, headers) over a stub "
+        "urlopener that computes the reply from the request (no network); the thread safety of urllib / "
+        "http.client / http.cookiejar is outside the property",
     ]
     proof_ok = ck.prove(THEOREMS)
 
@@ -1390,7 +1414,7 @@ def lookup_cases(ck, world):
 # ---------------------------------------------------------------------------
 
 ANCHOR_FILES = ("binding.py", "multiref.py", "client.py", "properties.py", "wsdl.py", "sudsobject.py",
-                "sxbasic.py", "document.py", "rpc.py")
+                "sxbasic.py", "document.py", "rpc.py", "http.py", "https.py")
 
 
 def pick_points(rng, names, budget, exhaustive, part=0, parts=1):
